@@ -59,7 +59,9 @@ vars == <<call, pc, env, req, verdict>>
 Locations == {"path", "query", "header", "cookie"}
 Types     == {"str", "int", "bool", "enum", "date", "datetime", "array"}
 Shapes    == {"plain", "kebab", "camel", "keyword", "url", "params", "headers", "body", "id"}
-BodyKinds == {"none", "json_model", "json_prim", "json_array", "form", "multipart", "octet", "two"}
+\* json_model: a model with two fields and a list field of one sub-model; json_prim: string / integer / boolean (body.ptype);
+\* json_array: array of sub-models; json_map: free-form object
+BodyKinds == {"none", "json_model", "json_prim", "json_array", "json_map", "form", "multipart", "octet", "two"}
 Methods   == {"GET", "POST", "PUT", "PATCH", "DELETE"}
 
 NameOf(shape) == CASE shape = "plain"   -> "limit"
@@ -72,7 +74,7 @@ LNameOf(shape) == IF shape = "camel" THEN "pagesize" ELSE NameOf(shape)
 MkParam(in, required, type, shape, level) ==
   [name |-> NameOf(shape), lname |-> LNameOf(shape), shape |-> shape, in |-> in, required |-> required, type |-> type, level |-> level]
 
-CtypeOf(kind) == CASE kind \in {"json_model", "json_prim", "json_array"} -> "application/json"
+CtypeOf(kind) == CASE kind \in {"json_model", "json_prim", "json_array", "json_map"} -> "application/json"
                    [] kind = "form"      -> "application/x-www-form-urlencoded"
                    [] kind = "multipart" -> "multipart/form-data"
                    [] kind = "octet"     -> "application/octet-stream"
@@ -142,6 +144,7 @@ Places(c, r, i) ==
       \E j \in DOMAIN Entries(r, L) : Holds(p.type, a.leaves, Entries(r, L)[j].v) /\ (L = "header" => Entries(r, L)[j].k \notin DefaultHeaders)}
   \cup (IF \E j \in DOMAIN r.path : Holds(p.type, a.leaves, r.path[j].v) THEN {"path"} ELSE {})
   \cup (IF r.body # "" /\ r.body = a.canon /\ (p.type \in TokTypes \/ UniqueCanon(c, i))     \* the whole body is this argument's JSON
+             /\ ~\E j \in BodyArgs(c) : c.args[j].sup /\ c.args[j].canon = r.body             \* ... and not the body argument's own
           THEN {"body"} ELSE {})
 First(S) == CHOOSE x \in S : \A y \in S : LET ord == <<"body", "query", "header", "cookie", "path">> IN
                (CHOOSE m \in DOMAIN ord : ord[m] = x) <= (CHOOSE m \in DOMAIN ord : ord[m] = y)
